@@ -407,7 +407,15 @@ fn apply_content_edits_with_content(
     for (before, after, start, end) in replacements.iter().rev() {
         // Validate the replacement matches expected content
         // A stale plan may point past the end of the file or into the middle of a character
-        let actual = original_content.get(*start..*end).unwrap_or("<out of range>");
+        let Some(actual) = original_content.get(*start..*end) else {
+            return Err(anyhow!(
+                "Content mismatch in {}: expected '{}' at {}..{}, which is outside the file or inside a character",
+                path.display(),
+                before,
+                start,
+                end
+            ));
+        };
         if actual != before {
             return Err(anyhow!(
                 "Content mismatch in {}: expected '{}', found '{}'",
